@@ -44,6 +44,10 @@ P = ParamSpec("P")
 R = TypeVar("R")
 
 
+class _TupleAnnotations(tuple[Any, ...]):
+    """The annotations of a tuple[...] hint, one per element (as opposed to a single non-tuple value)."""
+
+
 class DLTypeAnnotation(NamedTuple):
     """A class representing a type annotation for a tensor."""
 
@@ -83,7 +87,9 @@ class DLTypeAnnotation(NamedTuple):
 
         # tuple handling special case
         if origin is tuple:
-            return tuple(itertools.chain(*[cls.from_hint(inner_hint, name) for inner_hint in args]))
+            return _TupleAnnotations(
+                itertools.chain(*[cls.from_hint(inner_hint, name) for inner_hint in args])
+            )
 
         # Only process Annotated types
         if origin is not Annotated:
@@ -161,7 +167,7 @@ def _resolve_value(
     value: Any,  # noqa: ANN401
     type_hint: tuple[_tensor_type_base.TensorTypeBase | DLTypeAnnotation | None, ...],
 ) -> tuple[Any]:
-    return cast("tuple[Any]", value) if len(type_hint) > 1 else (value,)
+    return cast("tuple[Any]", value) if isinstance(type_hint, _TupleAnnotations) else (value,)
 
 
 def dltyped(  # noqa: C901, PLR0915
@@ -279,7 +285,7 @@ def dltyped(  # noqa: C901, PLR0915
                 if maybe_return_annotation := _resolve_types(dltype_hints.get(return_key)):
                     ctx.add(
                         return_key,
-                        _resolve_value(retval, maybe_return_annotation),
+                        _resolve_value(retval, dltype_hints[return_key]),
                         maybe_return_annotation,
                     )
                     ctx.assert_context()
